@@ -118,6 +118,13 @@ func (o *contractOp) Next(ctx context.Context) ([]model.StepVector, error) {
 				o.mon.add("R8-resurrected", fmt.Sprintf("%s: Next returned %d vectors after it had signalled the end of the stream", o.desc, len(again)))
 			}
 		}
+		if !o.ended && o.gotSeries && ctx.Err() == nil {
+			// R1 at the end of the stream: the list handed out earlier must still be what Series()
+			// returns, label for label (a consumer may have edited the shared label slices in place)
+			if again, err := o.inner.Series(ctx); err == nil && !sameSeries(o.series, again) {
+				o.mon.add("R1-series-changed", fmt.Sprintf("%s: at the end of the stream Series() no longer returns the label sets it returned first (%d series)", o.desc, len(again)))
+			}
+		}
 		o.ended = true
 		return nil, nil
 	}
